@@ -1584,10 +1584,29 @@ def super_call(interp, node, env):
 
 
 def with_stmt(interp, node, env):
+    """`with expr as name:` for external (Opaque) context managers: enter/exit are recorded in the effect trace;
+    __exit__ runs on every way out of the body (it closes the object and does not swallow exceptions: T7)"""
     h = getattr(interp, 'with_hook', None)
     if h is not None:
         return h(interp, node, env)
-    raise Unsupported('with statement at %s' % interp.where(node))
+    objs = []
+    for item in node.items:
+        obj = interp.eval(item.context_expr, env)
+        if not isinstance(obj, Opaque):
+            raise Unsupported('with statement over %r at %s' % (obj, interp.where(node)))
+        interp.trace.append(('with-enter', obj))
+        objs.append(obj)
+        if item.optional_vars is not None:
+            interp.assign(item.optional_vars, obj, env)
+    try:
+        interp.exec_block(node.body, env)
+    finally:
+        import sys
+        et = sys.exc_info()[0]
+        from .interp import _Return, _Break, _Continue
+        if et is None or issubclass(et, (PyExc, _Return, _Break, _Continue)):
+            for obj in reversed(objs):
+                interp.trace.append(('with-exit', obj))
 
 
 @_b('len')
@@ -1832,6 +1851,10 @@ def _islice(interp, args, kw, node):
     """islice over an iterator of concrete remaining length with concrete bounds (T2)"""
     it = get_iter(interp, args[0], node)
     bounds = list(args[1:])
+    if isinstance(it, SrcIter) and not is_concrete_iter(it) and len(bounds) == 2 and is_conc_int(bounds[0]) and bounds[0] >= 0 and bounds[1] is None:
+        # islice(it, start, None): skips `start` elements (or fewer if the iterator ends), then the rest
+        it.pos = z3.If(it.pos + bounds[0] <= it.n, it.pos + bounds[0], it.n)
+        return it
     if is_concrete_iter(it) and all(b is None or is_conc_int(b) for b in bounds):
         import itertools as _it
         items = iter_concrete(interp, it)
